@@ -42,13 +42,7 @@ def canon(fi, node):
                                                    + fi.node.args.kwonlyargs])}
 
     if id(fi) not in _order_cache:
-        order = {}
-        stores = sorted((n for n in ast.walk(fi.node) if isinstance(n, ast.Name) and isinstance(n.ctx, ast.Store)),
-                        key=lambda n: (n.lineno, n.col_offset))
-        for n in stores:
-            if n.id not in order and n.id not in params:
-                order[n.id] = '$v%d' % len(order)
-        _order_cache[id(fi)] = order
+        _order_cache[id(fi)] = _local_descriptions(fi, params, defs)
     order = _order_cache[id(fi)]
 
     class Sub(ast.NodeTransformer):
@@ -71,6 +65,67 @@ def canon(fi, node):
         return ast.unparse(Sub().visit(_fresh(node)))
     except Exception:
         return ast.unparse(node)
+
+
+def _local_descriptions(fi, params, defs):
+    """Name-independent description of each local that is not replaced by its single definition:
+    the canonical text of its first binding (other such locals anonymised as $_)."""
+    first = {}
+    for n in sorted((x for x in ast.walk(fi.node) if isinstance(x, ast.Name) and isinstance(x.ctx, ast.Store)),
+                    key=lambda x: (x.lineno, x.col_offset)):
+        if n.id not in first and n.id not in params:
+            first[n.id] = n
+    anon = set(first) - set(defs)
+
+    class Anon(ast.NodeTransformer):
+        def __init__(self):
+            self.depth = 0
+
+        def visit_Name(self, n):
+            if n.id in params:
+                return ast.Name(id=params[n.id], ctx=ast.Load())
+            if n.id in anon:
+                return ast.Name(id='$_', ctx=ast.Load())
+            if n.id in defs and self.depth < 3:
+                self.depth += 1
+                r = self.visit(_fresh(defs[n.id]))
+                self.depth -= 1
+                return r
+            return n
+
+    def text(e):
+        try:
+            return ast.unparse(Anon().visit(_fresh(e)))
+        except Exception:
+            return '?'
+    out = {}
+    for name, node in first.items():
+        if name in defs:
+            continue
+        p = node
+        desc = None
+        while p is not fi.node and p is not None:
+            q = getattr(p, '_parent', None)
+            if isinstance(q, ast.Assign) and p in q.targets:
+                if p is node:
+                    desc = '{%s}' % text(q.value)
+                else:
+                    idx = [i for i, e in enumerate(getattr(p, 'elts', [])) if node in list(ast.walk(e))]
+                    desc = '{%s#%s}' % (text(q.value), idx[0] if idx else '')
+                break
+            if isinstance(q, (ast.For, ast.comprehension)) and (p is q.target):
+                idx = [i for i, e in enumerate(getattr(p, 'elts', [])) if node in list(ast.walk(e))]
+                desc = '{each %s%s}' % (text(q.iter), '#%s' % idx[0] if idx else '')
+                break
+            if isinstance(q, ast.AugAssign) and p is q.target:
+                desc = '{aug %s}' % text(q.value)
+                break
+            if isinstance(q, (ast.withitem,)):
+                desc = '{with %s}' % text(q.context_expr)
+                break
+            p = q
+        out[name] = desc or '{local}'
+    return out
 
 
 def _fresh(node):
@@ -257,6 +312,16 @@ def discharge_subscript(model, fi, node):
     for test, pol in gs:
         if bound_guard(test, pol, idx_txt, base_txt):
             return 'bound-guard'
+    # EAFP: the lookup sits in a try whose handler catches the lookup error
+    n_ = node
+    while n_ is not fi.node and n_ is not None:
+        p_ = getattr(n_, '_parent', None)
+        if isinstance(p_, ast.Try) and n_ in p_.body:
+            for h in p_.handlers:
+                names = [] if h.type is None else [_txt(t).split('.')[-1] for t in (h.type.elts if isinstance(h.type, ast.Tuple) else [h.type])]
+                if h.type is None or set(names) & {'KeyError', 'IndexError', 'LookupError', 'Exception'}:
+                    return 'try-except'
+        n_ = p_
     k = _const_int(idx)
     if k is not None:
         need = k + 1 if k >= 0 else -k
@@ -322,6 +387,8 @@ def rule_idx(ctx, rep):
                 ar = tuple_arity_of(model, fi, node.value)
                 if isinstance(node.value, ast.Tuple) and len(node.value.elts) == want:
                     how = 'literal'
+                elif _protocol_tuple(model, fi, node.value, want):
+                    how = 'protocol-tuple'
                 elif ar == want and not _may_be_none(model, fi, node.value):
                     how = 'tuple-arity'
                 elif ar == want:
@@ -355,6 +422,30 @@ def rule_idx(ctx, rep):
     rep.extra['idx_discharge_counts'] = by_how
     rep.extra['idx_unaudited_keys'] = unaudited
     rep.floor('R-IDX', n, 100)
+
+
+def _protocol_tuple(model, fi, value, want):
+    """A block token constructor unpacking its argument, when every result its own read() can return is a
+    tuple literal of exactly that arity."""
+    if fi.cls is None or fi.name not in ('__init__', '__new__') or not isinstance(value, ast.Name):
+        return False
+    params = fi.params()
+    if len(params) < 2 or value.id != params[1]:
+        return False
+    hit = fi.cls.lookup('read')
+    if hit is None or hit[0] != 'method':
+        return False
+    rd = hit[1]
+    arities = []
+    for n in walk_function(rd.node):
+        if isinstance(n, ast.Return):
+            if n.value is None or (isinstance(n.value, ast.Constant) and n.value.value is None):
+                continue       # None results are not constructed (tokenize_block skips them)
+            a = tuple_arity_of(model, rd, n.value)
+            if a is None:
+                return False
+            arities.append(a)
+    return bool(arities) and all(a == want for a in arities)
 
 
 def _in_annotation(node, fnode):
